@@ -17,8 +17,8 @@ META = {
     "text": "All 144 cipher x MAC x compression suites in both directions: every message-length sequence "
             "of length <=2 (quick) / <=3 (thorough) over {1,11,16,255,4096,35000} in two content classes, a "
             "200-message sequence cycling through 25 boundary lengths up to 70000; for short streams "
-            "byte-wise reads, every 2-fragment split point and every position of <=1 (quick) / <=2 "
-            "(thorough) injected socket.timeout; key switches between every ordered pair of 12 framing x "
+            "byte-wise reads, every 2-fragment split point (thorough: every 3-fragment split for 16 class "
+            "representatives) and every position of <=1 (quick) / <=2 (thorough) injected socket.timeout; key switches between every ordered pair of 12 framing x "
             "compression classes at every position of a 4-message sequence (also two switches, strict-kex "
             "sequence reset on/off). Oracle: messages read == messages sent, reader never raises or stalls.",
     "note": "sender and receiver are both paramiko (symmetric bugs are C03/C04's job); payloads <= 70000 bytes; "
@@ -185,7 +185,7 @@ def do_frag(item, acc):
     for si, seq in enumerate(FRAG_SEQS):
         script = [sw(suite)] + msgs(seq, "rep" if si == 0 else "rand", salt0=50)
         stream, chunks, sent = P.transmit(direction, script)
-        if len(stream) >= 400:
+        if len(stream) >= 600:
             raise AssertionError("fragmentation stream unexpectedly long: %d" % len(stream))
         acc.cmax("max_fragmented_stream_len", len(stream))
         reads = [({"max_chunk": 1}, ("bytewise",))]
@@ -203,6 +203,10 @@ def do_frag(item, acc):
         if tier != "quick":
             for i, j in itertools.combinations(range(n_whole + 1), 2):
                 reads.append(({"timeouts": [i, j]}, ("timeout2", min(i, 12), min(j - i, 3))))
+            if si == 0 and direction == "c2s" and (suite[0], suite[1]) in CLASS_REPS_T:
+                # every 3-fragment split of the stream for the framing-class representatives
+                for p1, p2 in itertools.combinations(range(1, len(stream)), 2):
+                    reads.append(({"cuts": [p1, p2]}, ("cut2", cut_shape(chunks, p1), cut_shape(chunks, p2))))
         for read, shape in reads:
             _, _, r = run_case(direction, script, read, stream, sent)
             acc.ev()
